@@ -3307,8 +3307,9 @@ fn main() {
     run_group(&mut ctx, "towers", rt, &mut visited);
     run_group(&mut ctx, "curves", rc, &mut visited);
     run_group(&mut ctx, "pairings", rp, &mut visited);
-    // states = configurations visited, transitions = relations evaluated
+    // states = (configuration, relation, index) cases evaluated, as in every other check; the number of distinct
+    // configurations walked is a bound
     ctx.bound("relation_cases", ctx.states);
-    ctx.states = visited.len() as u64;
+    ctx.bound("configurations_visited", visited.len() as u64);
     std::process::exit(ctx.finish());
 }
